@@ -89,21 +89,27 @@ Print Assumptions C10_armor_is_its_lines.
 (* the premises are satisfiable: every real kind, header pairs with spaces, colons and a tab *)
 Example C10_premises_magic : forallb wf_magic [m_public; m_private; m_message; m_signature] = true.
 Proof. reflexivity. Qed.
-Example C10_premises_headers : wf_headers [([86; 101; 114], [80; 71; 80; 32; 49]); ([67], [97; 58; 98; 9; 99])].
+Example C10_premises_headers : wf_headers [([86; 101; 114], [80; 71; 80; 32; 49]); ([67], [97; 58; 32; 98; 9; 99; 58; 32])].
 Proof. split; [reflexivity|]. repeat constructor; cbn; intuition discriminate. Qed.
 Example C10_premises_embedded :
   Forall (fun l => forallb line_char l = true /\ nostart l = true) [[70; 114; 111; 109; 58; 32; 120; 13]; []; [45; 45; 45; 45; 45]].
 Proof. repeat constructor. Qed.
 
-(* header pairs outside wf_headers do not read back as written: a value containing ": " is split at its
-   last ": " (the key group of the header expression is greedy) *)
+(* header pairs outside wf_headers do not read back as written: a key containing ": " is split at its first ": "
+   (such a key is not an RFC 4880 6.2 header key) *)
 Theorem C10_headers_refuted : exists k h p, wf_magic k = true /\ wf_bytes p /\ p <> [] /\
   unarmor (armor k h p) <> UArmor k (headers_opt h) p (crc24 p) false None.
 Proof.
-  exists m_message, [([67], [78; 58; 32; 120])], [1; 2; 3].
+  exists m_message, [([65; 58; 32; 66], [121])], [1; 2; 3].
   split; [reflexivity|]. split; [repeat constructor; cbn; intuition discriminate|]. split; [discriminate|].
   vm_compute. discriminate.
 Qed.
+
+(* the header split before commit 0c3c3b8 (greedy key group): a VALUE containing ": " did not read back;
+   the present split returns it *)
+Theorem C10_headers_prefix_refuted : exists kv, wf_header kv = true /\
+  parse_hdr_prefix (hdr_line kv) <> kv /\ parse_hdr (hdr_line kv) = kv.
+Proof. exists ([67], [78; 58; 32; 120]). repeat split. vm_compute. discriminate. Qed.
 
 (* ---- checksum report ---- *)
 Theorem C10_crc_flag_iff : forall t m h body crc warn c,
